@@ -47,3 +47,11 @@ claim("C08",
       "Metamorphic (decomposition) + reference-model runtime monitor: for generated `prefix, OP{[head, rest...]...}` programs the committed clause is determined by running each head on the real engine, and the operator's answers must equal, as a multiset, those of `prefix, head, rest` (conda) or `prefix, <first engine answer of the head>, rest` (condu/onceo); wherever the soft-cut semantics is unambiguous the reference interpreter is compared too; matcha/matchu go through the macro's expansion shape; nested committed choice in rest goals makes conjunct order observable; H2 counters must show Solver::peek and Solver::trunc stepping lazy streams. Held on the executions observed.",
       "Trusted: the engine itself for WHICH head answer is first (the property's wording); pvmon::refsem soft-cut interpreter; heads bind query variables to ground terms only.",
       "runtime monitoring: decomposition-metamorphic oracle (operator vs committed clause run separately) + reference-model comparison")
+claim("C04",
+      "Metamorphic runtime monitor, real engine vs real engine: generated terminating tree / FD / mixed programs are run in their written order and in every permutation of the main conjunction (all if <= 4 goals) plus random simultaneous permutations of every conjunction and disjunction at every nesting level, each on a fresh thread (fresh hash seeds); the answer multisets (ground-instance sets) must coincide. Held on the executions observed.",
+      "Trusted: nothing beyond the comparison relation (finite instance universe); no reference model.",
+      "runtime monitoring: permutation-metamorphic oracle between executions of the real engine")
+claim("C09",
+      "Runtime monitor over recorded answer sequences: the same Query value run twice, the rebuilt program, 5-8 fresh threads and (xproc lane) 2 fresh processes must yield identical sequences up to renaming of reified variables and order within constraint sets; differences are classified representation-only / order-only / semantic; every exhausted iterator is probed 3 more times (fusedness); infinite-stream programs must deliver 12 answers within 2*10^6 engine steps (hook H1; bounded restatement of laziness). Held on the executions observed.",
+      "Trusted: fresh threads/processes as stand-ins for different hash seeds; the step bound for laziness.",
+      "runtime monitoring: cross-run comparison of recorded answer sequences under different hash seeds; bounded-progress step monitor")
